@@ -265,4 +265,27 @@ theorem c17_abscapture_spelled :
   · intro r raw; exact V.unmarshal_total r raw
   · intro v r; exact V.roundtrip v r rfl rfl
 
+/-! ### the specification is consistent with itself
+
+  `render` (used to say what Marshal must emit) and `parse` (used to say what Unmarshal must find) are
+  inverse to each other for every layout whose values fit their fields and whose width is a whole number
+  of bytes — a fact about Rtp/Spec/ExtLayouts.lean alone, proved without reference to the model. -/
+
+theorem c17_spec_parse_render (fs : List Field) (hwf : ∀ f ∈ fs, f.2 < 2 ^ f.1) (h8 : width fs % 8 = 0)
+    (trail : Bytes) : parse (fs.map (·.1)) (render fs ++ trail) = fs.map (·.2) :=
+  parse_render fs hwf h8 trail
+
+/-- and the five decoders give back the value whose layout they are shown -/
+theorem c17_spec_roundtrip :
+    (∀ v, audioSpec.inRange v = true → audioSpec.decode (render (audioSpec.layout v)) = some v) ∧
+    (∀ v, tccSpec.decode (render (tccSpec.layout v)) = some v) ∧
+    (∀ v, playoutSpec.inRange v = true → playoutSpec.decode (render (playoutSpec.layout v)) = some v) ∧
+    (∀ v, absSendSpec.exact v = true → absSendSpec.decode (render (absSendSpec.layout v)) = some v) ∧
+    (∀ v, absCaptureSpec.decode (render (absCaptureSpec.layout v)) = some v) :=
+  ⟨fun v h => c17_audio_verified.spec_roundtrip v h h, fun v => c17_tcc_verified.spec_roundtrip v rfl rfl,
+   fun v h => c17_playout_verified.spec_roundtrip v h h, fun v h => c17_abssend_verified.spec_roundtrip v rfl h,
+   fun v => c17_abscapture_verified.spec_roundtrip v rfl rfl⟩
+
+example : parse [12, 12] (render [(12, 0xABC), (12, 0x123)] ++ [0xEE]) = [0xABC, 0x123] := by decide
+
 end Rtp.Props.C17
